@@ -131,7 +131,9 @@ class ScalesUriParser(object):
     servers = uri.netloc.split(',')
     server_objs = []
     for s in servers:
-      host, port = s.split(':')
+      host, port = s.rsplit(':', 1)
+      # IPv6 literals are written [::1]:8080
+      host = host.strip('[]')
       server = self.Server(self.Endpoint(host, int(port)))
       server_objs.append(server)
     return StaticServerSetProvider(server_objs)
